@@ -26,6 +26,9 @@ SOURCE_FUNCS = (
         "__init__", "agents", "_add_agent", "_remove_agent", "calculate_difference_vector", "calculate_distances",
         "get_agents_in_radius", "get_k_nearest_agents", "in_bounds", "torus_correct")]
     + [(_AGT, "ContinuousSpaceAgent")]          # position getter/setter, __init__, remove, the two neighbour forms
+    # agent.remove() / model.remove_all_agents() as far as they reach the space (round 3)
+    + [("mesa/agent.py", "Agent.remove"), ("mesa/model.py", "Model.register_agent"),
+       ("mesa/model.py", "Model.deregister_agent"), ("mesa/model.py", "Model.remove_all_agents")]
 )
 TABLE_CONSTRUCTS = [
                     # code-level T1 (harness/tables/continuous_code.py): translated functions + statement skeletons
@@ -184,12 +187,29 @@ def _gen_history(rng, space, nd, torus, bounds, cap, nops, maxagents=9):
         return q
 
     def newpos():
+        if placed and rng.random() < 0.18:
+            return list(rng.choice(list(placed.values())))     # exactly onto another agent (coincident agents)
         out = rng.random() < (0.3 if torus else 0.12)
         return _point(rng, bounds, outside=out)
 
     while len(ops) < nops:
         r = rng.random()
         n = len(placed)
+        if space == "exp" and n and rng.random() < 0.012:
+            ops.append(["clear"])                               # model.remove_all_agents()
+            removed += list(placed)
+            placed.clear()
+            continue
+        if n >= 2 and rng.random() < 0.05:
+            # coincidence probes: a query centred exactly on an agent, radius 0 / tiny, centre in and out
+            a = rng.choice(list(placed))
+            if space == "legacy":
+                ops.append(["nbrs", list(placed[a]) if _inside_closed(bounds, placed[a]) or not torus else _point(rng, bounds),
+                            rng.choice([0, 0, 1, 16]), rng.random() < 0.5])
+            else:
+                ops.append(rng.choice([["nbr_near", a, rng.randint(1, n - 1)], ["nbr_radius", a, rng.choice([0, 0, 1, 16])],
+                                       ["knear", list(placed[a]) if _inside_closed(bounds, placed[a]) or not torus else _point(rng, bounds), rng.randint(1, n)]]))
+            continue
         if r < 0.24 or (n == 0 and r < 0.6 and len(ops) > 0) or (n == 0 and len(ops) == 0 and r < 0.8):
             if n >= maxagents:
                 continue
@@ -256,7 +276,7 @@ def _gen_history(rng, space, nd, torus, bounds, cap, nops, maxagents=9):
                     a, b = rng.sample(list(placed), 2)
                     ops.append(["pair", a, b])
                 elif n:
-                    sub = [rng.choice(list(placed)) for _ in range(rng.randint(1, min(4, n + 1)))]
+                    sub = [rng.choice(list(placed)) for _ in range(rng.randint(0, min(4, n + 1)))]   # [] and repeats too
                     ops.append([rng.choice(["dists_of", "diffs_of"]), q, sub])
                 else:
                     ops.append(["radius", q, _radius(rng, bounds, torus, pts, q)])
@@ -382,6 +402,24 @@ def enumerate_cases(tier, broken=False):
                         else:
                             ops.append(["knear", [12, 28], max(1, len(live))])
                     yield {"space": "exp", "bounds": bounds, "torus": torus, "cap": cap, "ops": ops}
+    # coincident agents: m agents on one point, e others elsewhere; every agent asks for every k, radius 0 queries
+    for torus in (False, True):
+        for m in range(1, 5):
+            for e in range(0, 3):
+                n = m + e
+                adds = [["add", i + 1, [0, 16], "l"] for i in range(m)] + [["add", m + j + 1, pts[2 + j], "l"] for j in range(e)]
+                ops = list(adds)
+                for a in range(1, n + 1):
+                    for k in range(1, n):
+                        ops.append(["nbr_near", a, k])
+                    ops.append(["nbr_radius", a, 0])
+                ops += [["radius", [0, 16], 0], ["knear", [0, 16], min(n, m)], ["remove", 1], ["clear"], ["radius", [0, 16], 0]]
+                yield {"space": "exp", "bounds": bounds, "torus": torus, "cap": 2, "ops": ops}
+                lops = [["place", i + 1, [0, 16], "i"] for i in range(m)] + [["place", m + j + 1, pts[2 + j], "f"] for j in range(e)]
+                for ic in (True, False):
+                    lops += [["nbrs", [0, 16], 0, ic], ["nbrs", [0, 16], 16, ic], ["nbrs", [32, 48], 0, ic]]
+                lops += [["move", 1, [32, 48], "f"], ["nbrs", [32, 48], 0, False], ["nbrs", [0, 16], 0, True]]
+                yield {"space": "legacy", "bounds": bounds, "torus": torus, "ops": lops}
 
 
 # ------------------------------------------------------------------ implementation side
@@ -410,6 +448,13 @@ def _sc2(d, bad):
 def _rows(rows):
     out = []
     for r in sorted(rows, key=lambda r: r[0]):
+        out += r
+    return out
+
+
+def _rows_in_order(rows):
+    out = []
+    for r in rows:
         out += r
     return out
 
@@ -479,11 +524,13 @@ def _run_legacy(case):
             else:
                 rows.append([o._label] + [_sc(v, bad) for v in o.pos])
         haspos = sorted(a for a, o in objs.items() if o.pos is not None)
-        v = [len(members)] + _rows(rows) + [SEP] + haspos
+        v = [len(members)] + _rows_in_order(rows) + [SEP] + haspos      # space.agents in ITS order
         if check and not state["dead"]:
             labels = [o._label for o in members]
             if sorted(labels) != sorted(shadow):
                 fails.add("C10/legacy/agents/wrong-set", i, f"space.agents holds {sorted(labels)} but the agents placed and not removed are {sorted(shadow)}")
+            elif labels != list(shadow):
+                fails.add("C10/legacy/agents/order", i, f"space.agents lists {labels}; the order of placement (of _agent_to_index) is {list(shadow)}")
             else:
                 for o in members:
                     got = None if o.pos is None else [_sc(v_, []) for v_ in o.pos]
@@ -610,7 +657,8 @@ def _site(kind):
             "dists": "calculate_distances", "radius": "get_agents_in_radius", "knear": "get_k_nearest_agents",
             "diffs": "calculate_difference_vector", "nbr_radius": "get_neighbors_in_radius",
             "nbr_near": "get_nearest_neighbors", "pair": "calculate_distances",
-            "dists_of": "calculate_distances", "diffs_of": "calculate_difference_vector"}.get(kind, kind)
+            "dists_of": "calculate_distances", "diffs_of": "calculate_difference_vector",
+            "clear": "remove_all_agents"}.get(kind, kind)
 
 
 def _run_exp(case):
@@ -650,11 +698,16 @@ def _run_exp(case):
             nrows = int(space.agent_positions.shape[0])
         except Exception:  # noqa: BLE001
             nrows = BAD
-        v = [len(members), nrows] + _rows(rows)
+        in_model = [o._label for o in model.agents]
+        v = [len(members), nrows] + _rows_in_order(rows) + [SEP] + in_model   # space.agents, model.agents in THEIR order
         if check and not state["dead"]:
             labels = [o._label for o in members]
             if sorted(labels) != sorted(shadow):
                 fails.add("C10/exp/agents/wrong-set", i, f"space.agents holds {sorted(labels)} but the agents added and not removed are {sorted(shadow)}")
+            elif labels != list(shadow):
+                fails.add("C10/exp/agents/order", i, f"space.agents lists {labels}; the order of creation (of active_agents) is {list(shadow)}")
+            elif sorted(in_model) != sorted(shadow):
+                fails.add("C10/exp/remove/model-and-space-disagree", i, f"model.agents holds {sorted(in_model)} but the space holds {sorted(shadow)}: an agent removed from the model must leave the space and vice versa")
             else:
                 for a in labels:
                     if got[a] is None or bad or not _position_ok(torus, bounds, shadow[a], got[a]):
@@ -748,6 +801,9 @@ def _run_exp(case):
                 o = live.pop(a)
                 shadow.pop(a, None)
                 o.remove()
+                if not state["dead"] and (o.space is not None or o in model.agents):
+                    fails.add("C10/exp/remove/agent-keeps-space", i, f"after agent {a}.remove() the agent still refers to its space / is still registered with the model")
+                    state["dead"] = True
                 obs.append([SEP] + view(i))
             elif kind in ("dists", "radius", "diffs"):
                 q = op[1]
@@ -795,7 +851,7 @@ def _run_exp(case):
                 obs.append(_rows([[a, d] for a, d in zip(labels, d2)]) + [SEP] + view(i))
             elif kind == "nbr_radius":
                 _, a, r = op
-                if a not in live:
+                if a not in live or r < 0:     # r < 0: empty answer, the wrapper's mask indexing raises - outside the quantifier
                     obs.append([-2])
                     ops_for_model.append(mop)
                     continue
@@ -810,27 +866,50 @@ def _run_exp(case):
                 n = len(space.active_agents)
                 bad = []
                 me = pos_of(live[a], bad) if a in live else None
-                coincide = me is not None and any(
-                    b != a and (pb := pos_of(o, [])) is not None and _dist2(torus, bounds, pb, me) == 0 for b, o in live.items())
-                if a not in live or me is None or k == 0 or n < k + 1 or coincide:
+                if a not in live or me is None or k == 0 or n < k + 1:
                     obs.append([-2])
                     ops_for_model.append([kind, a, k, []])
                     continue
-                agents, dists = live[a].get_nearest_neighbors(k)
+                # record what get_k_nearest_agents(k + 1) chose (argpartition outcome = input of the model)
+                raw = []
+                orig = space.get_k_nearest_agents
+
+                def spy(point, k=1, _orig=orig, _raw=raw):
+                    ag, ds = _orig(point, k=k)
+                    _raw.append([o._label for o in ag])
+                    return ag, ds
+                space.get_k_nearest_agents = spy
+                try:
+                    agents, dists = live[a].get_nearest_neighbors(k)
+                finally:
+                    del space.get_k_nearest_agents
+                raw = raw[0] if len(raw) == 1 else []
                 labels, d2 = check_pairs(i, "get_nearest_neighbors", shadow.get(a, me), list(agents), list(dists), bad)
                 if not state["dead"]:
+                    # the statement: k distinct OTHER agents, none farther than one left out; with c other agents exactly
+                    # on the asking agent and c >= k + 1 the code may also return k + 1 of those (documented boundary)
+                    on_me = [b for b, p in shadow.items() if b != a and _dist2(torus, bounds, p, shadow[a]) == 0]
                     if a in labels:
                         fails.add("C10/exp/get_nearest_neighbors/returns-self", i, f"agent {a}.get_nearest_neighbors({k}) returned itself: {labels}")
-                    elif len(labels) != k:
-                        fails.add("C10/exp/get_nearest_neighbors/wrong-count", i, f"agent {a}.get_nearest_neighbors({k}) returned {len(labels)} agents with {n} in the space")
+                    elif len(labels) != k and not (len(labels) == k + 1 and len(on_me) >= k + 1 and all(b in on_me for b in labels)):
+                        fails.add("C10/exp/get_nearest_neighbors/wrong-count", i, f"agent {a}.get_nearest_neighbors({k}) returned {len(labels)} agents ({labels}) with {n} in the space, {len(on_me)} of them exactly on agent {a}")
                     else:
                         far = max([_dist2(torus, bounds, shadow[b], shadow[a]) for b in labels if b in shadow], default=0)
                         for b, p in shadow.items():
                             if b != a and b not in labels and _dist2(torus, bounds, p, shadow[a]) < far:
                                 fails.add("C10/exp/get_nearest_neighbors/not-nearest", i, f"agent {a}.get_nearest_neighbors({k}) returned {labels} but agent {b} left out is nearer (positions x16 {shadow})")
                                 break
-                mop = [kind, a, k, labels]
+                mop = [kind, a, k, raw]
                 obs.append(_rows([[b, d] for b, d in zip(labels, d2)]) + [SEP] + view(i))
+            elif kind == "clear":
+                model.remove_all_agents()
+                gone = list(live.values())
+                live.clear()
+                shadow.clear()
+                if not state["dead"] and any(o.space is not None for o in gone):
+                    fails.add("C10/exp/remove/agent-keeps-space", i, "after model.remove_all_agents() a removed agent still refers to its space")
+                    state["dead"] = True
+                obs.append([SEP] + view(i))
             elif kind == "pair":
                 _, a, b = op
                 if a not in live or b not in live:
@@ -1509,6 +1588,8 @@ def coq_case(case):
             ops.append(f"ENearestNbrs {L.z(op[1])} {int(op[2])}%nat {L.zlist(out)}")
         elif k == "pair":
             ops.append(f"EPair {L.z(op[1])} {L.z(op[2])}")
+        elif k == "clear":
+            ops.append("EClear")
         elif k == "dists_of":
             ops.append(f"EDistancesOf {_pt(op[1])} {L.zlist(op[2])}")
         elif k == "diffs_of":
